@@ -1,5 +1,6 @@
 SPECIFICATION Spec
 CONSTANTS
+  AllowConnect = FALSE
   MaxCalls = 4
   Fallback = "other"
 INVARIANTS
